@@ -356,13 +356,25 @@ func runShard(cfg *Config, tier string, i, n int, deadline time.Time) shardResul
 			decErr = json.NewDecoder(bufio.NewReaderSize(stdout, 1<<20)).Decode(&ctx)
 			close(done)
 		}()
+		// A worker ends by itself at the deadline (ctx.Stop). It is killed only if the case in flight makes no progress
+		// for caseTimeout: that is a hang of THAT case, attributed to it. Running out of time is never a verdict.
 		hung := false
-		select {
-		case <-done:
-		case <-time.After(time.Until(deadline) + 2*time.Minute):
-			hung = true
-			cmd.Process.Kill()
-			<-done
+		lastOrd, lastChange := int64(-1), time.Now()
+	wait:
+		for {
+			select {
+			case <-done:
+				break wait
+			case <-time.After(3 * time.Second):
+				if o := markerOrdinal(marker); o != lastOrd {
+					lastOrd, lastChange = o, time.Now()
+				} else if time.Since(lastChange) > caseTimeout {
+					hung = true
+					cmd.Process.Kill()
+					<-done
+					break wait
+				}
+			}
 		}
 		werr := cmd.Wait()
 		if werr == nil && decErr == nil {
@@ -402,6 +414,19 @@ func runShard(cfg *Config, tier string, i, n int, deadline time.Time) shardResul
 	res.err = "too many worker deaths in one shard"
 	res.ctx = merged
 	return res
+}
+
+// caseTimeout is how long one case may run without the in-flight marker moving before it is declared hung.
+var caseTimeout = 5 * time.Minute
+
+func markerOrdinal(path string) int64 {
+	data, err := os.ReadFile(path)
+	if err != nil || len(data) < 24 {
+		return -1
+	}
+	var ord int64
+	fmt.Sscanf(string(data[4:24]), "%d", &ord)
+	return ord
 }
 
 type limitedWriter struct {
